@@ -98,6 +98,12 @@ def _vq(o):
     return (first_value(o), qmap(o))
 
 
+def _same_vq(a, b):
+    from symx.core import term
+
+    return a[1] == b[1] and (a[0] is b[0] or (a[0] is not None and b[0] is not None and z3.is_true(z3.simplify(term(a[0]) == term(b[0])))))
+
+
 def _prelude(V):
     from barril.units import Array, Scalar, UnitsError
 
@@ -129,15 +135,20 @@ def run(cfg, V):
     cls = leaf_class(cfg.get("arr"), bool(cfg.get("empty")))
     A = build(cfg["A"], V, ctr, cls)
     B = build(cfg["B"], V, ctr, cls)
+    import operator
+
+    before = (_vq(A), _vq(B))
     if cfg["op"] == "add":
         r = A + B
         back = r - B
         comm = B + A
+        inpl = operator.iadd(A, B)
     else:
         r = A - B
         back = r + B
         comm = None
-    return {"A": _vq(A), "B": _vq(B), "r": _vq(r), "back": _vq(back), "comm": _vq(comm) if comm is not None else None,
+        inpl = operator.isub(A, B)
+    return {"inpl": _vq(inpl), "inpl_new": inpl is not A and inpl is not B, "kept": _same_vq(before[0], _vq(A)) and _same_vq(before[1], _vq(B)), "A": _vq(A), "B": _vq(B), "r": _vq(r), "back": _vq(back), "comm": _vq(comm) if comm is not None else None,
             "same_q": r.GetQuantity() == A.GetQuantity(), "back_same_q": back.GetQuantity() == A.GetQuantity(),
             "cls": type(r).__name__}
 
@@ -160,10 +171,12 @@ def props(cfg, T, obs):
         P = [("result is a Scalar (Array for Array operands)", obs["cls"] == ("Array" if cfg.get("arr") else "Scalar")),
              ("result has the left operand's units and categories", bool(obs["same_q"]) and obs["r"][1] == obs["A"][1]),
              ("value(a+-b) ~ value(a) +- value(b re-expressed in a's unit)", approx(obs["r"][0], want, sc)),
-             ("(a+-b)-+b ~ a (value)", z3.And(approx(obs["back"][0], T["x0"], sc), z3.BoolVal(bool(obs["back_same_q"]))))]
+             ("(a+-b)-+b ~ a (value)", z3.And(approx(obs["back"][0], T["x0"], sc), z3.BoolVal(bool(obs["back_same_q"])))),
+             ("the augmented forms a += b / a -= b give the same amount and quantity as a + b / a - b, as a new object, operands untouched",
+              z3.And(approx(obs["inpl"][0], want, sc), z3.BoolVal(obs["inpl"][1] == obs["r"][1] and bool(obs["inpl_new"]) and bool(obs["kept"]))))]
         return P
     if cfg.get("empty"):
-        return [("result is an Array", obs["cls"] == "Array"),
+        return [("result is an Array", obs["cls"] == "Array"), ("a += b / a -= b build the same quantity as a + b / a - b", obs["inpl"][1] == obs["r"][1]),
                 ("result has the left operand's units and categories (empty operands)", bool(obs["same_q"]) and obs["r"][1] == obs["A"][1] and bool(obs["back_same_q"]))]
     mA, mB, mr, mback = (mag_of(*obs[k]) for k in ("A", "B", "r", "back"))
     want = mA + mB if cfg["op"] == "add" else mA - mB
@@ -176,6 +189,8 @@ def props(cfg, T, obs):
     ]
     if obs["comm"] is not None:
         P.append(("a+b~b+a", approx(mr, mag_of(*obs["comm"]), sc)))
+    P.append(("the augmented forms a += b / a -= b give the same amount and quantity as a + b / a - b, as a new object, operands untouched",
+              z3.And(approx(mag_of(*obs["inpl"]), mr, sc), z3.BoolVal(obs["inpl"][1] == obs["r"][1] and bool(obs["inpl_new"]) and bool(obs["kept"])))))
     if cfg.get("canary"):
         P.append(("canary:a+-b~a", approx(mr, mA)))
     return P
